@@ -257,6 +257,24 @@ pub fn run_case(base: Instant, c: &Case, dump: bool) -> (u64, Vec<(String, Strin
             script.push((c.at + 4, Op::PathChanged(SERVER)));
         }
         let done = drive(&mut p, &script, 60_000, Duration::from_secs(900));
+        // (application datagrams are not part of what `drive` waits for: let the send queues empty)
+        {
+            let until = p.w.t + Duration::from_secs(5);
+            let mut g = 0;
+            while g < 20_000 {
+                g += 1;
+                let queued = [CLIENT, SERVER].iter().any(|n| p.w.nodes[*n].conns.values().any(|s| s.conn.verif_probe().datagram_outgoing > 0));
+                if !queued {
+                    break;
+                }
+                match p.w.next_event() {
+                    Some((at, _)) if at <= until => {
+                        p.w.step();
+                    }
+                    _ => break,
+                }
+            }
+        }
         if done && (c.wl == Wl::W13 || c.wl == Wl::W14) {
             // datagrams are not part of "done": let the queue drain and the network go quiet
             let limit = p.w.t + Duration::from_secs(60);
@@ -343,6 +361,19 @@ pub fn main(args: &Args) -> ! {
                     }
                 }
             }
+        }
+    }
+    // datagram pairs whose second member just fits / just does not fit behind the first, at every
+    // estimate the path reaches (steady links)
+    for c in cfgs() {
+        if !["default", "mtudoff1452", "init1452", "gso1", "peer1350", "upper9000"].contains(&c.client.name.as_str()) {
+            continue;
+        }
+        for m in [1200usize, 1280, 1400, 1452, 9000] {
+            if m < c.client.initial_mtu as usize {
+                continue;
+            }
+            cases.push(Case { cfg: c.client.name.clone(), wl: Wl::W16, m0: m, at: 0, m1: m, rebind: false, close_long: None });
         }
     }
     // path validation (1200-byte rule) while datagrams and stream data are queued: the client's
